@@ -18,10 +18,11 @@ import copy, os, sys
 sys.path.insert(0, os.path.dirname(os.path.abspath(__file__)))
 from gens import V, level_sorted
 
-KNOWN_BAD_TAGS = ("leader_not_first_factor", "metrics_partitioned_index_math")
-EXPECT_REJECT_TAGS = ("empty_seq_binding", "empty_compute_binding", "intersector_no_coiteration",
-                      "two_finger_three_way", "merge_reduce_true", "buffer_source_no_bandwidth")
-MINIFIBER_GAP_TAGS = ("eager_output",)
+KNOWN_BAD_TAGS = ("leader_not_first_factor", "metrics_partitioned_index_math", "eager_root_after_lookup_rank")
+EXPECT_REJECT_TAGS = ("empty_seq_binding", "empty_compute_binding", "empty_merger_binding", "intersector_no_coiteration",
+                      "intersector_on_projected_rank", "two_finger_three_way", "buffer_source_no_bandwidth",
+                      "eager_evict_root_only", "eager_rank0_output", "eager_on_projected_rank", "format_names_foreign_rank")
+MINIFIBER_GAP_TAGS = ("eager_write_flag", "traffic_rank_map")
 
 RANKS_CON = ["K", "J", "KI", "PI", "R", "H"]
 RANKS_OUT = ["M", "I", "MI", "N", "P", "X", "U"]
@@ -92,6 +93,8 @@ def pick_ranks(rng):
     m, n, p = rng.sample(RANKS_OUT, 3)
     if rng.random() < 0.4:
         k, m, n = "K", "M", "N"
+        k2 = rng.choice([r for r in RANKS_CON if r != "K"])
+        p = rng.choice([r for r in RANKS_OUT if r not in ("M", "N")])
     return k, k2, m, n, p
 
 
@@ -103,6 +106,8 @@ def single_einsum(rng, family, out="Z", names=None, rk=None):
     sh = lambda xs: _shuffled(rng, xs)
     if family == "mm":
         return Ein(out, [M, N], [(a, sh([K, M])), (b, sh([K, N]))], family=family)
+    if family == "sigma":
+        return Ein(out, sh([M, N]), [(a, sh([K, M])), (b, sh([K, N]))], family=family)
     if family == "mv":
         return Ein(out, [M], [(a, sh([K, M])), (b, [K])], family=family)
     if family == "ewred":
@@ -132,7 +137,7 @@ def single_einsum(rng, family, out="Z", names=None, rk=None):
 
 
 SINGLE_FAMILIES = ["mm", "mm", "mm", "mv", "mv", "ewred", "ewred", "prod3", "prod3", "sddmm", "dot3d", "outer", "copy",
-                   "ew3", "take", "conv", "conv"]
+                   "ew3", "take", "conv", "conv", "sigma", "sigma"]
 
 
 def gen_einsums(rng, tags):
@@ -234,12 +239,16 @@ class MapInfo:
     def __init__(self):
         self.parts, self.flat, self.loop, self.space, self.time = {}, None, [], [], []
         self.conv = None
+        self.final_override = None     # sigma-style mappings: {frozenset(root ranks): final order}
+        self.pos_override = {}
 
     def flat_name(self):
         return "".join(self.flat) if self.flat else None
 
     def pos(self, x, tranks=None):
         """loop position at which the final tensor rank x is iterated"""
+        if x in self.pos_override:
+            return self.pos_override[x]
         if x in self.loop:
             return self.loop.index(x)
         if self.flat and x in self.flat:
@@ -252,6 +261,8 @@ class MapInfo:
     def final(self, ranks):
         """final rank names of a tensor with root ranks `ranks`, in loop (concordant) order"""
         rs = list(ranks)
+        if self.final_override is not None:
+            return list(self.final_override[frozenset(rs)])
         if self.flat and all(x in rs for x in self.flat):
             rs = [r for r in rs if r not in self.flat] + [self.flat_name()]
         exp = []
@@ -281,6 +292,36 @@ def gen_mapping(rng, eins, decl, ext, env, tags):
                 mapping["rank-order"][t] = list(rs)
         if mapping["rank-order"]:
             tags.append("rank-order")
+    # partitioning is decided per rank for the whole cascade (a tensor shared by two Einsums then has the same
+    # final rank names in both); with low probability every Einsum decides on its own
+    cascade = len(eins) > 1
+    all_ranks = []
+    for e in eins:
+        if not e.conv:
+            for r in e.ranks():
+                if r not in all_ranks:
+                    all_ranks.append(r)
+    gparts = {}
+    if all_ranks and rng.random() < 0.33:
+        npart = 1 if rng.random() < 0.75 or len(all_ranks) < 2 else 2
+        for r in rng.sample(all_ranks, npart):
+            nl = 1 if rng.random() < 0.8 else 2
+            sizes = sorted([rng.randint(1, 4) for _ in range(nl)], reverse=True)
+            stack = []
+            for i, sz in enumerate(sizes):
+                lvl = nl - 1 - i
+                if rng.random() < 0.3:
+                    nm = r + str(lvl)          # the level-extent name, as in extensor.yaml
+                    env[nm] = sz
+                    stack.append("uniform_shape(%s)" % nm)
+                    tags.append("symbolic_size")
+                else:
+                    stack.append("uniform_shape(%d)" % sz)
+            gparts[r] = stack
+            tags.append("part%d" % nl)
+    per_einsum_parts = cascade and gparts and rng.random() < 0.2
+    if per_einsum_parts:
+        tags.append("cascade_partitioning_differs")
     for e in eins:
         mi = MapInfo()
         allr = e.ranks()
@@ -288,36 +329,28 @@ def gen_mapping(rng, eins, decl, ext, env, tags):
         if e.conv:
             mi.conv = e.conv
             gen_conv_mapping(rng, e, mi, mapping, env, tags)
+        elif e.family == "sigma" and not any(r in gparts for r in allr):
+            gen_sigma_mapping(rng, e, mi, mapping, ext, env, tags)
+            explicit_loop = True
         else:
-            x = rng.random()
             flat_ok = [t for t in e.tensors() if t != e.out and len(e.tensor_ranks(t)) == 2] if e.kind == "times" else []
-            if x < 0.14 and flat_ok and len(allr) <= 3:
+            mine = [r for r in allr if r in gparts and not (per_einsum_parts and rng.random() < 0.5)]
+            if not mine and flat_ok and len(allr) <= 3 and rng.random() < (0.05 if cascade else 0.2):
                 # flatten the two ranks of one input (the other tensors holding both are flattened along)
                 t = rng.choice(flat_ok)
                 tup = tuple(_shuffled(rng, e.tensor_ranks(t)))
-                if not (tup[0] + tup[1] in allr or any((tup[0] + tup[1]).startswith(r) and r not in tup for r in [])):
-                    mi.flat = tup
-                    mapping["partitioning"].setdefault(e.out, {})["(%s, %s)" % tup] = ["flatten()"]
-                    tags.append("flatten")
-                    explicit_loop = True
-            elif x < 0.45 and allr:
-                npart = 1 if rng.random() < 0.75 or len(allr) < 2 else 2
-                for r in rng.sample(allr, npart):
-                    nl = 1 if rng.random() < 0.8 else 2
-                    sizes = sorted([rng.randint(1, 4) for _ in range(nl)], reverse=True)
-                    stack = []
-                    for i, sz in enumerate(sizes):
-                        lvl = nl - 1 - i
-                        if rng.random() < 0.3:
-                            nm = r + str(lvl)          # the level-extent name, as in extensor.yaml
-                            env[nm] = sz
-                            stack.append("uniform_shape(%s)" % nm)
-                            tags.append("symbolic_size")
-                        else:
-                            stack.append("uniform_shape(%d)" % sz)
-                    mi.parts[r] = stack
-                    mapping["partitioning"].setdefault(e.out, {})[r] = stack
-                    tags.append("part%d" % nl)
+                mi.flat = tup
+                mapping["partitioning"].setdefault(e.out, {})["(%s, %s)" % tup] = ["flatten()"]
+                tags.append("flatten")
+                # metrics mode always gives the output an explicit shape; for a flattened output rank the shape names
+                # the flattened rank itself (shape=[MK]), which the user then has to supply
+                env[tup[0] + tup[1]] = ext[tup[0]] * ext[tup[1]]
+                if all(x in e.oranks for x in tup):
+                    tags.append("flattened_output")
+                explicit_loop = True
+            for r in mine:
+                mi.parts[r] = gparts[r]
+                mapping["partitioning"].setdefault(e.out, {})[r] = list(gparts[r])
             exp = []
             for r in allr:
                 if mi.flat and r in mi.flat:
@@ -385,14 +418,50 @@ def gen_conv_mapping(rng, e, mi, mapping, env, tags):
         # partitioned index math: known to emit an unbound position variable in metrics mode
         sz = rng.randint(1, 3)
         mi.parts[Q] = ["uniform_shape(%d)" % sz]
+        mi.parts[W] = ["follow(%s)" % Q]
         mapping["partitioning"][e.out] = {Q: ["uniform_shape(%d)" % sz], W: ["follow(%s)" % Q]}
         env[Q + "0"] = sz
         env[W + "0"] = sz
         mi.loop = rng.choice([[Q + "1", Q + "0", S], [Q + "1", S, Q + "0"], [S, Q + "1", Q + "0"]])
         tags.append("metrics_partitioned_index_math")
     else:
-        mi.loop = rng.choice([[Q, S], [Q, S], [S, Q], [W, Q], [W, S], [Q, W], [S, W]])
+        mi.loop = rng.choice([[Q, S], [Q, S], [S, Q], [W, Q], [Q, W]])
     tags.append("conv_loop:" + ",".join(mi.loop))
+
+
+def gen_sigma_mapping(rng, e, mi, mapping, ext, env, tags):
+    """the mapping of sigma.yaml: K split by shape, (M, K0) flattened, optionally MK0 split by occupancy of A"""
+    (a, ar), (b, br) = e.factors
+    K = [r for r in ar if r in br][0]
+    M = [r for r in ar if r != K][0]
+    N = [r for r in br if r != K][0]
+    K1, K0 = K + "1", K + "0"
+    flat = M + K0
+    sz = rng.randint(1, 3)
+    parts = {K: ["uniform_shape(%d)" % sz], "(%s, %s)" % (M, K0): ["flatten()"]}
+    occ = rng.random() < 0.6
+    if occ:
+        parts[flat] = ["uniform_occupancy(%s.%d)" % (a, rng.randint(1, 3))]
+        inner = [flat + "1", flat + "0"]
+        tags.append("sigma_occupancy")
+    else:
+        inner = [flat]
+    mapping["partitioning"][e.out] = parts
+    # N goes anywhere below K1
+    loop = [K1] + inner
+    loop.insert(rng.randint(1, len(loop)), N)
+    mi.loop = loop
+    mi.parts = {K: parts[K]}
+    mi.flat = (M, K0)
+    bottom = inner[-1]
+    pb, pn = loop.index(bottom), loop.index(N)
+    mi.pos_override = {M: pb, K0: pb}
+    zf = [N, M] if pn < pb else [M, N]
+    bf = [K1, N, K0] if pn < pb else [K1, K0, N]
+    mi.final_override = {frozenset(ar): [K1] + inner, frozenset(br): bf, frozenset(e.oranks): zf}
+    env[K0] = sz
+    env[flat] = ext[M] * ext[K]
+    tags.append("sigma_mapping")
 
 
 def default_loop(e):
@@ -416,35 +485,38 @@ def level_name(rng, base, ranged, tags):
     return base, 1
 
 
-def gen_config(rng, cfg_idx, tags, shared_names):
-    """-> (yaml level list, [Comp])"""
-    depth = rng.choice([1, 2, 2, 3, 3, 3])
-    bases = rng.choice([["System", "Chip", "PE"], ["level0", "level1", "level2"], ["System", "Cluster", "Core"], ["Top", "PT", "PE"]])
+def gen_config(rng, cfg_idx, tags):
+    """-> (yaml level list, [Comp]).  Component names are unique over all configurations (the compiler keys components
+    by name globally): configuration i > 0 suffixes every name with `_c<i>`.  Level names may repeat."""
+    classic = rng.random() < 0.45
+    if classic:
+        # the textbook hierarchy: DRAM at the root, a shared buffer per chip, a private buffer per PE
+        depth = 3
+        bases = rng.choice([["System", "Chip", "PE"], ["System", "Cluster", "Core"], ["Top", "PT", "PE"]])
+        ranged = [False, rng.random() < 0.75, rng.random() < 0.9]
+        tags.append("arch_classic")
+    else:
+        depth = rng.choice([1, 2, 2, 3, 3, 3])
+        bases = rng.choice([["System", "Chip", "PE"], ["level0", "level1", "level2"], ["System", "Cluster", "Core"], ["Top", "PT", "PE"]])
+        ranged = [False] + [rng.random() < 0.7 for _ in range(depth - 1)]
     levels = []
     for d in range(depth):
-        nm, num = level_name(rng, bases[d], d > 0 and rng.random() < 0.7, tags)
+        nm, num = level_name(rng, bases[d], ranged[d], tags)
         levels.append({"name": nm, "local": [], "subtree": [], "_num": num})
     freq = rng.choice([1000, 2048, 500000000, 1000000000, 1500000000])
     levels[0]["attributes"] = {"clock_frequency": freq}
     # siblings at the deepest level (pipeline stages like gamma)
     siblings = []
-    if depth >= 2 and rng.random() < 0.35:
+    if depth >= 2 and rng.random() < 0.3:
         for i in range(rng.randint(1, 2)):
             nm, num = level_name(rng, "Stage%d" % i, rng.random() < 0.7, tags)
             siblings.append({"name": nm, "local": [], "subtree": [], "_num": num})
         tags.append("arch_siblings")
     comps = []
-    sfx = "" if cfg_idx == 0 else str(cfg_idx)
+    sfx = "" if cfg_idx == 0 else "_c%d" % cfg_idx
 
-    def cname(base):
-        # components of a second configuration either reuse the name of the first one's or get their own
-        if cfg_idx == 0:
-            shared_names.add(base)
-            return base
-        if base in shared_names and rng.random() < 0.5:
-            tags.append("component_name_in_two_configs")
-            return base
-        return base + sfx
+    def mk(base, cls, class_str, attrs):
+        return {"name": base + sfx, "class": class_str, "attributes": attrs}, cls
 
     def place(comp_yaml, cls, d, sib=None):
         lvl = siblings[sib] if sib is not None else levels[d]
@@ -452,44 +524,71 @@ def gen_config(rng, cfg_idx, tags, shared_names):
         comps.append(Comp(comp_yaml["name"], cls, d if sib is None else depth - 1, lvl["_num"], comp_yaml.get("attributes", {}),
                           branch=0 if sib is None else sib + 1))
 
-    def any_place(comp_yaml, cls):
+    def any_place(comp_yaml, cls, prefer=None):
         if siblings and rng.random() < 0.5:
             place(comp_yaml, cls, None, rng.randrange(len(siblings)))
+        elif prefer is not None and rng.random() < 0.7:
+            place(comp_yaml, cls, prefer)
         else:
             place(comp_yaml, cls, rng.randrange(depth))
 
     bw = lambda: rng.choice([128, 512, 4096, 1099511627776, 586314575512])
-    # memories
-    if rng.random() < 0.92:
-        place({"name": cname("MainMemory"), "class": "DRAM", "attributes": {"bandwidth": bw()}}, "DRAM", 0)
-    else:
-        tags.append("no_dram")
-    if depth >= 2 and rng.random() < 0.25:
-        place({"name": cname("HBM"), "class": "DRAM", "attributes": {"bandwidth": bw()}}, "DRAM", 1)
-        tags.append("dram2")
-    nbuf = rng.choice([0, 1, 1, 2, 2, 3])
-    buf_names = ["LLB", "RegFile", "L1", "SPM"]
-    for i in range(nbuf):
-        cls = rng.choice(["Buffet", "Buffet", "Cache"])
+
+    def buf_attrs(p_bw):
         attrs = {"width": rng.choice([8, 32, 64, 96]), "depth": rng.choice([16, 128, 1024, 8192, "inf"])}
-        if rng.random() < 0.5:
+        if rng.random() < p_bw:
             attrs["bandwidth"] = bw()
-        d = min(depth - 1, i + (1 if depth > 1 else 0)) if rng.random() < 0.7 else rng.randrange(depth)
-        y = {"name": cname(buf_names[i]), "class": cls if rng.random() < 0.8 else cls.lower(), "attributes": attrs}
-        if siblings and d == depth - 1 and rng.random() < 0.4:
+        return attrs
+
+    def cstr(cls):
+        return cls if rng.random() < 0.8 else cls.lower()
+
+    # memories
+    if classic:
+        place(*mk("MainMemory", "DRAM", "DRAM", {"bandwidth": bw()}), 0)
+        cls = rng.choice(["Buffet", "Buffet", "Cache"])
+        place(*mk(rng.choice(["LLB", "L2"]), cls, cstr(cls), buf_attrs(0.9)), 1)
+        cls = rng.choice(["Buffet", "Buffet", "Buffet", "Cache"])
+        y, cls = mk(rng.choice(["PEB", "RegFile"]), cls, cstr(cls), buf_attrs(0.3))
+        if siblings and rng.random() < 0.3:
             place(y, cls, None, rng.randrange(len(siblings)))
         else:
-            place(y, cls, d)
+            place(y, cls, 2)
+        if rng.random() < 0.3:
+            cls = rng.choice(["Buffet", "Cache"])
+            place(*mk("SPM", cls, cstr(cls), buf_attrs(0.5)), rng.choice([1, 2, 2]))
+        if rng.random() < 0.15:
+            place(*mk("HBM", "DRAM", "dram", {"bandwidth": bw()}), 1)
+            tags.append("dram2")
+    else:
+        if rng.random() < 0.9:
+            place(*mk("MainMemory", "DRAM", "DRAM", {"bandwidth": bw()}), 0)
+        else:
+            tags.append("no_dram")
+        if depth >= 2 and rng.random() < 0.25:
+            place(*mk("HBM", "DRAM", rng.choice(["DRAM", "dram"]), {"bandwidth": bw()}), 1)
+            tags.append("dram2")
+        nbuf = rng.choice([0, 1, 1, 2, 2, 3])
+        buf_names = ["LLB", "RegFile", "L1", "SPM"]
+        for i in range(nbuf):
+            cls = rng.choice(["Buffet", "Buffet", "Cache"])
+            d = min(depth - 1, i + (1 if depth > 1 else 0)) if rng.random() < 0.7 else rng.randrange(depth)
+            y, cls = mk(buf_names[i], cls, cstr(cls), buf_attrs(0.6))
+            if siblings and d == depth - 1 and rng.random() < 0.4:
+                place(y, cls, None, rng.randrange(len(siblings)))
+            else:
+                place(y, cls, d)
     # compute
+    fu_level = depth - 1 if classic else None
     for nm, ty in (("FPMul", "mul"), ("FPAdd", "add")):
         if rng.random() < 0.85:
-            any_place({"name": cname(nm), "class": rng.choice(["Compute", "compute"]), "attributes": {"type": ty}}, "Compute")
+            any_place(*mk(nm, "Compute", rng.choice(["Compute", "compute"]), {"type": ty}), prefer=fu_level)
     if rng.random() < 0.3:
-        any_place({"name": cname("ALU"), "class": "Compute", "attributes": {"type": rng.choice(["mul", "add"])}}, "Compute")
+        any_place(*mk("ALU", "Compute", "Compute", {"type": rng.choice(["mul", "add"])}), prefer=fu_level)
     # intersectors
     for i in range(rng.choice([0, 1, 1, 2, 3])):
         ty = rng.choice(["two-finger", "skip-ahead", "leader-follower", "leader-follower"])
-        any_place({"name": cname("Isect%d" % i), "class": rng.choice(["Intersector", "intersector"]), "attributes": {"type": ty}}, "Intersector")
+        any_place(*mk("Isect%d" % i, "Intersector", rng.choice(["Intersector", "intersector"]), {"type": ty}))
     # mergers
     for i in range(rng.choice([0, 0, 1, 1, 2])):
         attrs = {"inputs": rng.choice([2, 64, "inf"]), "comparator_radix": rng.choice([2, 64, "inf"])}
@@ -499,10 +598,10 @@ def gen_config(rng, cfg_idx, tags, shared_names):
             attrs["order"] = rng.choice(["fifo", "opt"])
         if rng.random() < 0.6:
             attrs["reduce"] = False
-        any_place({"name": cname("Merger%d" % i), "class": "Merger", "attributes": attrs}, "Merger")
+        any_place(*mk("Merger%d" % i, "Merger", "Merger", attrs))
     # sequencers
     for i in range(rng.choice([0, 1, 2, 2, 3])):
-        any_place({"name": cname("Seq%d" % i), "class": "Sequencer", "attributes": {"num_ranks": rng.randint(1, 4)}}, "Sequencer")
+        any_place(*mk("Seq%d" % i, "Sequencer", "Sequencer", {"num_ranks": rng.randint(1, 4)}))
     # assemble
     for d in range(depth - 1):
         levels[d]["subtree"].append(levels[d + 1])
@@ -522,6 +621,9 @@ def gen_config(rng, cfg_idx, tags, shared_names):
             out["subtree"] = [clean(s) for s in lvl["subtree"]]
         return out
     tags.append("arch_depth%d" % depth)
+    nums = sorted(set(l["_num"] for l in levels + siblings))
+    if len(nums) >= 3:
+        tags.append("three_instance_counts")
     return [clean(levels[0])], comps
 
 
@@ -562,6 +664,23 @@ def gen_formats(rng, eins, decl, storage, infos, tags):
                 tags.append("decoy_format")
         if len(fmt[t]) == 2:
             tags.append("two_formats")
+    # every format of a tensor is looked at in every Einsum that uses the tensor: a rank name that only exists under
+    # another Einsum's partitioning is not a node of this Einsum's partitioning graph (NetworkXError)
+    for e in eins:
+        mi = infos[e.out]
+        valid = set(decl[x][0] for x in e.tensors() if e.conv and decl[x]) | set(e.ranks())
+        for r in list(valid):
+            valid.update(expand_rank(r, mi.parts))
+        if mi.flat:
+            valid.add(mi.flat_name())
+        valid.update(mi.loop)
+        if mi.final_override is not None:
+            for o in mi.final_override.values():
+                valid.update(o)
+        for t in e.tensors():
+            for f, spec in fmt.get(t, {}).items():
+                if any(r not in valid for r in spec["rank-order"]):
+                    tags.append("format_names_foreign_rank")
     return fmt, loopfmt
 
 
@@ -605,8 +724,9 @@ def rank_formats(rng, order, tags):
 
 def participants(e, mi, lrank, decl):
     """input tensors that are co-iterated (intersected) at loop rank lrank, in term order"""
-    from gens import root_of
     out = []
+    if mi.final_override is not None:
+        return [n for n, rs in e.factors if lrank in mi.final(rs) and lrank in mi.loop and lrank not in mi.pos_override]
     for n, rs in e.factors:
         rs2 = decl[n] if e.conv else rs
         if lrank in mi.final(rs2) and (not mi.flat or lrank != mi.flat_name() or all(x in rs2 for x in mi.flat)):
@@ -619,6 +739,7 @@ def gen_bindings(rng, case_name, eins, decl, storage, infos, configs, fmt, loopf
     cfg_names = list(configs)
     prev_cfg = None
     used_fus = {}
+    mem_used = {}
     for ei, e in enumerate(eins):
         mi = infos[e.out]
         if prev_cfg is not None and rng.random() < 0.5:
@@ -643,6 +764,7 @@ def gen_bindings(rng, case_name, eins, decl, storage, infos, configs, fmt, loopf
         mems = [c for c in comps if c.is_mem()]
         # ---- memory traffic
         eager_done = set()
+        eager_list = []
         for t in e.tensors():
             f = loopfmt.get((e.out, t))
             if f is None or rng.random() < 0.2:
@@ -663,11 +785,27 @@ def gen_bindings(rng, case_name, eins, decl, storage, infos, configs, fmt, loopf
                 continue
             if len(set(c.name for c in chain)) != len(chain):
                 continue
+            # a memory that feeds a deeper one needs a bandwidth
+            for ci, c in enumerate(chain[:-1]):
+                if "bandwidth" not in c.attrs:
+                    if rng.random() < 0.1:
+                        tags.append("buffer_source_no_bandwidth")
+                    else:
+                        chain = chain[:ci + 1]
+                    break
             is_out = t == e.out
             eager_at = {}      # buffet name -> index of the eager root rank
             for c in chain:
-                if c.cls == "Buffet" and rng.random() < (0.06 if is_out else 0.3):
-                    eager_at[c.name] = rng.randrange(len(final))
+                if c.cls == "Buffet" and rng.random() < (0.08 if is_out else 0.22):
+                    ri = rng.randrange(len(final))
+                    if mi.pos(final[ri]) == 0 and rng.random() < 0.97:
+                        continue        # only `root` could be the evict-on rank: crashes the compiler (see below)
+                    if final[ri] not in mi.loop and not (mi.flat and final[ri] in mi.flat):
+                        # a rank that is iterated through a projection (convolution): `assert loaded` fails
+                        if rng.random() < 0.9:
+                            continue
+                        tags.append("eager_on_projected_rank")
+                    eager_at[c.name] = ri
             for ri, r in enumerate(final):
                 rs = spec[r]
                 types = []
@@ -703,21 +841,38 @@ def gen_bindings(rng, case_name, eins, decl, storage, infos, configs, fmt, loopf
                                         continue
                                     eager_done.add((c.name, t))
                                     b["style"] = "eager"
+                                    b["evict-on"] = rng.choice(above[1:]) if len(above) > 1 and rng.random() < 0.98 else "root"
+                                    eager_list.append((t, r, b["evict-on"]))
                                     tags.append("eager")
+                                    if ri > 0 and mi.flat and final[ri - 1] in mi.flat and final[ri - 1] not in mi.loop:
+                                        # the fiber is produced by a getPayload() in the loop body, but the eager
+                                        # trace is emitted above it: NameError at run time
+                                        tags.append("eager_root_after_lookup_rank")
                                     if is_out:
                                         tags.append("eager_output")
-                            b["evict-on"] = rng.choice(above)
+                            if "evict-on" not in b:
+                                b["evict-on"] = rng.choice(above)
                             if "style" not in b and rng.random() < 0.4:
                                 b["style"] = "lazy"
                         elif c.cls == "Cache" and rng.random() < 0.1:
                             b["evict-on"] = rng.choice(above)
+                        if c.cls != "DRAM" and mi.flat and (r in mi.flat or b.get("evict-on") in mi.flat):
+                            tags.append("traffic_rank_map")
                         add(c.name, dict(_shuffled(rng, list(b.items()))))
             tags.append("chain%d" % len(chain))
             if len(chain) >= 2 and chain[0].cls != "DRAM":
                 tags.append("buffer_fills_from_buffer")
-                if "bandwidth" not in chain[0].attrs:
-                    tags.append("buffer_source_no_bandwidth")
-        # buffers whose source lacks a bandwidth
+        # an eager binding whose innermost evict-on rank is `root` crashes trace_tree (NetworkXError)
+        innermost = {}
+        for t, r, ev in eager_list:
+            k = (t, r)
+            pos = -1 if ev == "root" else mi.loop.index(ev)
+            innermost[k] = max(innermost.get(k, -1), pos)
+        if any(v < 0 for v in innermost.values()):
+            tags.append("eager_evict_root_only")
+        if eager_list and (e.out, e.out) in loopfmt:
+            # the compiler then treats the Einsum as eagerly *writing* (whatever tensor the eager binding is for)
+            tags.append("eager_rank0_output" if not e.oranks else "eager_write_flag")
         # ---- memories bound with an empty list
         for c in mems:
             if c.name not in per_comp and rng.random() < 0.15:
@@ -748,7 +903,7 @@ def gen_bindings(rng, case_name, eins, decl, storage, infos, configs, fmt, loopf
             add(c.name, {"op": op})
             used_fus.setdefault(c.name, []).append(e.out)
         for c in computes:
-            if c.name not in per_comp and rng.random() < 0.02:
+            if c.name not in per_comp and rng.random() < 0.008:
                 add(c.name)
                 tags.append("empty_compute_binding")
         # ---- intersectors
@@ -758,8 +913,12 @@ def gen_bindings(rng, case_name, eins, decl, storage, infos, configs, fmt, loopf
             ps = participants(e, mi, lr, decl)
             if len(ps) >= 2:
                 cands.append((lr, ps))
+        conv_direct = {}
         if e.conv:
-            cands = conv_isect_cands(e, mi)
+            cands = []
+            for lr, ps, direct in conv_isect_cands(e, mi):
+                cands.append((lr, ps))
+                conv_direct[lr] = direct
         rng.shuffle(cands)
         taken = set()
         for c in isects:
@@ -782,7 +941,18 @@ def gen_bindings(rng, case_name, eins, decl, storage, infos, configs, fmt, loopf
                         taken.add(lr)
                     continue
                 b = {"rank": lr}
-                if ty == "leader-follower":
+                if e.conv:
+                    # the traces of a projected fiber are filed under the tensor's own rank: only a leader-follower
+                    # intersector led by the tensor that is iterated directly can be built
+                    lead = conv_direct[lr] if rng.random() < 0.9 else [x for x in ps if x != conv_direct[lr]][0]
+                    if ty != "leader-follower" or lead != conv_direct[lr]:
+                        if rng.random() < 0.85:
+                            continue
+                        tags.append("intersector_on_projected_rank")
+                    if ty == "leader-follower":
+                        b["leader"] = lead
+                        tags.append("leader_first" if lead == ps[0] else "leader_not_first_factor")
+                elif ty == "leader-follower":
                     if rng.random() < 0.85:
                         b["leader"] = ps[0]
                         tags.append("leader_first")
@@ -808,7 +978,7 @@ def gen_bindings(rng, case_name, eins, decl, storage, infos, configs, fmt, loopf
                     tags.append("intersector_no_coiteration")
         # ---- mergers
         mergers = [c for c in comps if c.cls == "Merger"]
-        if mergers and not mi.flat and not e.conv:
+        if mergers and not mi.flat and not e.conv and mi.final_override is None:
             swz = []
             for t in e.tensors():
                 if t == e.out:
@@ -820,7 +990,7 @@ def gen_bindings(rng, case_name, eins, decl, storage, infos, configs, fmt, loopf
             rng.shuffle(swz)
             for c in mergers:
                 if not swz or rng.random() < 0.3:
-                    if rng.random() < 0.1:
+                    if rng.random() < 0.02:
                         add(c.name)
                         tags.append("empty_merger_binding")
                     continue
@@ -840,7 +1010,7 @@ def gen_bindings(rng, case_name, eins, decl, storage, infos, configs, fmt, loopf
         nseq = 0
         for c in seqs:
             if rng.random() < 0.25 or not mi.loop:
-                if rng.random() < 0.03:
+                if rng.random() < 0.015:
                     add(c.name)
                     tags.append("empty_seq_binding")
                 continue
@@ -855,12 +1025,36 @@ def gen_bindings(rng, case_name, eins, decl, storage, infos, configs, fmt, loopf
             used_fus.setdefault(c.name, []).append(e.out)
         if nseq:
             tags.append("sequencers%d" % nseq)
+        # which memories act as sources (feed a deeper memory holding the same data) in this Einsum
+        memcomp = {c.name: c for c in mems}
+        paths = {}
+        for cn, bl in per_comp.items():
+            if cn in memcomp:
+                for b in bl:
+                    paths.setdefault((b["tensor"], b["rank"], b["type"], b["format"]), []).append(memcomp[cn])
+                if bl:
+                    mem_used.setdefault(cn, set()).add(e.out)
+        srcs = {}
+        for k, cs in paths.items():
+            if loopfmt.get((e.out, k[0])) != k[3]:
+                continue
+            cs = sorted(cs, key=lambda c: c.depth)
+            for i in range(1, len(cs)):
+                srcs[cs[i - 1].name] = cs[i - 1].num
+        if len(srcs) >= 2:
+            tags.append("two_source_memories")
+            if len(set(srcs.values())) >= 2:
+                tags.append("sources_with_different_instance_counts")
+            if any(memcomp[n].cls != "DRAM" for n in srcs) and any(memcomp[n].cls == "DRAM" for n in srcs):
+                tags.append("fills_from_dram_and_from_buffer")
         if rng.random() < 0.3:
             rng.shuffle(order)
         for comp in order:
             ent.append({"component": comp, "bindings": per_comp[comp]})
         bindings[e.out] = ent
     if len(eins) > 1:
+        if any(len(v) > 1 for v in mem_used.values()):
+            tags.append("memory_bound_in_several_einsums")
         if any(len(set(v)) > 1 for v in used_fus.values()):
             tags.append("shared_functional_unit")
         elif used_fus:
@@ -869,10 +1063,12 @@ def gen_bindings(rng, case_name, eins, decl, storage, infos, configs, fmt, loopf
 
 
 def conv_isect_cands(e, mi):
+    """(loop rank, participants in term order, tensor whose own rank is the loop rank)"""
     Q, S, W = e.conv
     names = [n for n, _ in e.factors]
-    if mi.loop == [Q, S]:
-        return [(S, names)]
+    direct = {S: [n for n, r in e.factors if r == [S]][0], W: [n for n, r in e.factors if r == [W]][0]}
+    if mi.loop in ([Q, S], [Q, W]):
+        return [(mi.loop[1], names, direct[mi.loop[1]])]
     return []
 
 
@@ -891,9 +1087,8 @@ def g7(rng, **opts):
     ncfg = 1 if rng.random() < 0.7 else 2
     arch, configs = {}, {}
     cfg_names = rng.choice([["Accelerator", "MergePhase"], ["accel", "accel2"], ["Config0", "Config1"]])
-    shared = set()
     for i in range(ncfg):
-        y, comps = gen_config(rng, i, tags, shared)
+        y, comps = gen_config(rng, i, tags)
         arch[cfg_names[i]] = y
         configs[cfg_names[i]] = comps
     tags.append("configs%d" % ncfg)
@@ -909,6 +1104,21 @@ def g7(rng, **opts):
 
 
 # ------------------------------------------------------------------------------------------ self-test
+
+def _run_patched(text, case, inputs):
+    """gens.run_text with the stand-ins that minifiber lacks patched in for the duration of the call:
+    Metrics.getIter() must return something with .copy(); Traffic.buffetTraffic / cacheTraffic take an optional
+    seventh argument (the rank map)."""
+    import gens, minifiber
+    saved = (minifiber._Metrics.getIter, minifiber._Traffic.buffetTraffic, minifiber._Traffic.cacheTraffic)
+    minifiber._Metrics.getIter = lambda self: []
+    minifiber._Traffic.buffetTraffic = lambda self, *a: minifiber._TrafficResult()
+    minifiber._Traffic.cacheTraffic = lambda self, *a: minifiber._TrafficResult()
+    try:
+        return gens.run_text(text, case, inputs)
+    finally:
+        minifiber._Metrics.getIter, minifiber._Traffic.buffetTraffic, minifiber._Traffic.cacheTraffic = saved
+
 
 def _selftest(seed, n, verbose=False):
     import random, collections, traceback
@@ -954,6 +1164,15 @@ def _selftest(seed, n, verbose=False):
             hist["harness error"] += 1
             traceback.print_exc()
             continue
+        if not r.ok and any(t in MINIFIBER_GAP_TAGS for t in special):
+            # the program needs a stand-in minifiber does not have: run again with the stand-ins patched in memory
+            # (this process only) to see whether anything else is wrong with it
+            r2 = _run_patched(c.text, case, inputs)
+            if r2.ok and not (gens.compare(case, r2, inputs) + list(r2.problems)):
+                hist["  of the runtime errors: executed ok once the missing stand-ins are patched in"] += 1
+            else:
+                hist["  of the runtime errors: still failing with the stand-ins patched in"] += 1
+                runerr[(cls, "PATCHED: " + (r2.err or "wrong result")[:50])] += 1
         if not r.ok:
             key = "runtime error"
             runerr[(cls, r.err[:60])] += 1
